@@ -367,6 +367,26 @@ class PipeOps(FullOps):
         if name in ("t", "transpose", "permute", "movedim", "flip", "roll", "swapaxes", "fliplr", "flipud"):
             self.pev("axis_reorder", node, what=name)
             return t.but(layout=())
+        if name in ("add_", "sub_") and t.note == "grad-field":
+            vt = tv_of(args[0]) if args else None
+            self.pev("inplace", node, alias=False, target=name, target_note=t.note, target_origin=sorted(t.origin))
+            self.pev("grad_write", node, aug=True, target=sorted(t.origin), target_note="key", value=repr(args[0]) if args else "", fresh=True,
+                     value_origin=sorted(vt.origin) if vt is not None else None, value_is_none=False)
+            return t
+        if name in ("split", "tensor_split", "split_with_sizes"):
+            sizes = args[0] if args else kwargs.get("split_size_or_sections", kwargs.get("split_sizes"))
+            dim = kwargs.get("dim", args[1] if len(args) > 1 else None)
+            d = self.const_int(dim) if dim is not None else 0
+            lst = self.to_list(sizes, "list", node) if not isinstance(sizes, TV) else None
+            lay = [l for l in t.layout if l[0] == d]
+            if isinstance(lst, ListV) and lst.items is None:
+                self.pev("unpack", node, axis=d, layout=repr(lay[0][1]) if lay else None, layout_how=lay[0][2] if lay else None, loop_order=repr(lst.order),
+                         lo="<split>", hi="<split>", lo_poly=None, hi_poly=None, step="None", in_loop=True, tensor_origin=sorted(t.origin),
+                         lo_origin=sorted(self.atoms_of(lst)), hi_origin=sorted(self.atoms_of(lst)), lo_note="prefix-sum-cur", hi_note="prefix-sum-next")
+                piece = t.but(layout=tuple(l for l in t.layout if l[0] != d), alias=True)
+                return ListV(items=None, elem=piece, kind="tuple", order=lst.order)
+            self.pev("opaque_method", node, name=name)
+            return ListV(items=None, elem=opaque(t.origin), kind="tuple")
         if name in ("backward", "retain_grad", "requires_grad_", "register_hook", "detach_", "zero_"):
             self.pev("autograd_state", node, what=name, target=sorted(t.origin), target_note=t.note)
             return NONE if name != "requires_grad_" else t
@@ -405,6 +425,14 @@ class PipeOps(FullOps):
                 and b.items is None and b.order is not None and b.order[1].endswith("[:-1]") and isinstance(b.elem, TV) and b.elem.note == "prefix-sum-next":
             # [0] + cumulative[:-1]: the prefix sums *before* each element
             return ListV(items=None, elem=b.elem.but(note="prefix-sum-cur"), kind=a.kind, order=(order_src(b.order), b.order[1][:-5]))
+        def literal_keys(x):
+            return isinstance(x, ListV) and x.items is not None and x.items and all(isinstance(i, TV) and i.note == "key" for i in x.items)
+
+        if isinstance(a, ListV) and isinstance(b, ListV) and ((a.items is None and a.order and literal_keys(b)) or (b.items is None and b.order and literal_keys(a))):
+            lit, abs_ = (b, a) if literal_keys(b) else (a, b)
+            lit_order = (tuple(sorted({o for i in lit.items for o in i.origin})), "same")
+            lit_sum = ListV(items=None, elem=join_all(lit.items), kind=lit.kind, order=lit_order)
+            return self.concat_lists(abs_, lit_sum, node) if lit is b else self.concat_lists(lit_sum, abs_, node)
         if isinstance(a, ListV) and isinstance(b, ListV) and a.items is None and b.items is None and a.order and b.order:
             oa, ob = a.order, b.order
             mode = "same" if oa[1] == "same" and ob[1] == "same" else ("unordered" if {oa[1], ob[1]} <= {"same", "unordered"} else "mixed")
@@ -476,12 +504,15 @@ class PipeOps(FullOps):
                  retain_graph_pure=isinstance(rg, TV) and rg.note == "flag",
                  create_graph=repr(vals.get("create_graph")), create_graph_origin=sorted(vals["create_graph"].origin) if isinstance(vals.get("create_graph"), TV) else None,
                  allow_unused=vals.get("allow_unused").v if isinstance(vals.get("allow_unused"), Const) else repr(vals.get("allow_unused")),
+                 materialize_grads=vals.get("materialize_grads").v if isinstance(vals.get("materialize_grads"), Const) else None,
                  vmapped=getattr(self, "in_vmap", 0) > 0, loop_depth=len(self.loop_orders))
         if fn == "backward":
             return NONE
         inputs = vals.get("inputs")
         lst = self.to_list(inputs, "tuple", node) if inputs is not None else None
         unused = isinstance(vals.get("allow_unused"), Const) and vals["allow_unused"].v is True
+        if isinstance(vals.get("materialize_grads"), Const) and vals["materialize_grads"].v is True:
+            unused = False  # torch fills the missing gradients with zeros itself
         elem = opaque(frozenset(["autograd"]) | (self.atoms_of(lst) if isinstance(lst, ListV) else frozenset()), note="optional" if unused else "")
         if isinstance(lst, ListV):
             if lst.items is not None:
@@ -523,7 +554,8 @@ class PipeOps(FullOps):
             return NONE
         if fn == "zip":
             lists = [self.to_list(a, "list", node) for a in args]
-            self.pev("zip", node, orders=[repr(l.order) if isinstance(l, ListV) else "?" for l in lists], in_loop=bool(self.loop_orders))
+            self.pev("zip", node, orders=[(repr(l.order) if l.items is None or l.order is not None else "(('literal-sequence',), 'same')") if isinstance(l, ListV) else "?" for l in lists],
+                     in_loop=bool(self.loop_orders))
         return super().call_builtin(fn, args, kwargs, node, env)
 
     def zip(self, args, node):
